@@ -52,6 +52,10 @@ class ExprMixin:
             return T.scalar(T.XINT, T.XIntS.fin(self.coerce(v, T.INT).t))
         if ty == T.INT and v.ty == T.BOOL:
             return T.sv_int(z3.If(v.t, 1, 0))
+        if isinstance(ty, T.Seq) and isinstance(v.ty, T.Seq) and ty.e == T.REAL and v.ty.e == T.INT:
+            return T.sv_seq(T.REAL, v.len, TH.SEQ_TOREAL(v.at))
+        if isinstance(ty, T.Bag) and isinstance(v.ty, T.Set) and ty.e == v.ty.e:
+            return T.scalar(ty, TH.bagof_fn(ty.e)(v.t))       # a set passed where a list is iterated: every member once (axioms bagof_def, bagof_len)
         if v.ty == T.EMPTYLIST:
             if isinstance(ty, T.Bag):
                 return T.scalar(ty, z3.K(ty.e.sort(), z3.IntVal(0)))
